@@ -85,6 +85,8 @@ def extract_block_template(src, rep, all_terms=False):
             raise AnalysisError('%s: no return' % f.site)
         return r[1], it
     res, raised = strlang.worlds(run)
+    if all_terms == 'worlds':
+        return f, [(dec, t) for dec, t, it in res], raised
     good = [(dec, t) for dec, t, it in res
             if dec.get(('bool', 'self._no_trailer')) is False and dec.get(('present', 'self.author')) and dec.get(('present', 'self.date'))]
     if not good:
